@@ -231,6 +231,10 @@ func (r *rig) pend(gid int64) *pcall {
 
 // gstates: goroutine id -> (state, stack text) of every goroutine that runs election, backend
 // or API-caller code
+// abandoned: goroutines of instances that were given up as stuck (they may sit in a lock for
+// ever); later scenarios do not wait for them
+var abandoned = map[int64]bool{}
+
 func gstates(self int64) map[int64][2]string {
 	buf := stackBuf
 	for {
@@ -253,7 +257,7 @@ func gstates(self int64) map[int64][2]string {
 		}
 		f := strings.Fields(hdr)
 		id, _ := strconv.ParseInt(f[1], 10, 64)
-		if id == self {
+		if id == self || abandoned[id] {
 			continue
 		}
 		if strings.Contains(blk, "stack unavailable") {
@@ -274,9 +278,33 @@ func gstates(self int64) map[int64][2]string {
 
 var stackBuf = make([]byte, 1<<18)
 
+// frames names the innermost election/harness functions of a goroutine's stack
+func frames(stack string) string {
+	var fs []string
+	for _, ln := range strings.Split(stack, "\n") {
+		if strings.HasPrefix(ln, "\t") || strings.HasPrefix(ln, "goroutine ") || strings.HasPrefix(ln, "created by") {
+			continue
+		}
+		if strings.Contains(ln, "pkg/ielections.") || strings.Contains(ln, "verifharness/c12.") {
+			f := ln[strings.LastIndex(ln, "/")+1:]
+			if i := strings.LastIndex(f, "("); i > 0 {
+				f = f[:i]
+			}
+			fs = append(fs, f)
+		}
+		if len(fs) == 3 {
+			break
+		}
+	}
+	return strings.Join(fs, " < ")
+}
+
 func blockedState(st string) bool {
 	switch st {
-	case "select", "chan receive", "sync.WaitGroup.Wait", "select (no cases)":
+	case "select", "chan receive", "sync.WaitGroup.Wait", "select (no cases)",
+		// waiting for a lock whose holder is itself parked (the dump is atomic: a holder that runs
+		// makes the system non-quiescent anyway)
+		"sync.Mutex.Lock", "sync.RWMutex.Lock", "sync.RWMutex.RLock", "sync.Cond.Wait":
 		return true
 	}
 	return false
@@ -305,7 +333,7 @@ func (r *rig) settle() (map[int64][2]string, error) {
 			var sb strings.Builder
 			for id, s := range gs {
 				if !blockedState(s[0]) {
-					fmt.Fprintf(&sb, "goroutine %d [%s]\n", id, s[0])
+					fmt.Fprintf(&sb, "goroutine %d [%s] in %s\n", id, s[0], frames(s[1]))
 				}
 			}
 			return gs, fmt.Errorf("stuck: threads that never park: %s; %s", strings.ReplaceAll(strings.TrimSpace(sb.String()), "\n", ", "), r.describePending())
@@ -382,4 +410,29 @@ func (r *rig) teardown() {
 		close(p.cmds)
 	}
 	r.cleanup()
+}
+
+// describeThreads lists where every election / API-caller goroutine of the process is parked
+func describeThreads() string {
+	gs := gstates(goid())
+	var ids []int64
+	for id := range gs {
+		ids = append(ids, id)
+	}
+	sort.Slice(ids, func(i, j int) bool { return ids[i] < ids[j] })
+	var items []string
+	for _, id := range ids {
+		if f := frames(gs[id][1]); strings.Contains(f, "ielections.") {
+			items = append(items, fmt.Sprintf("goroutine %d [%s] in %s", id, gs[id][0], f))
+		}
+	}
+	return strings.Join(items, "; ")
+}
+
+// abandon gives the instance up: whatever election goroutine still exists is ignored from now on
+func (r *rig) abandon() {
+	time.Sleep(20 * time.Millisecond)
+	for id := range gstates(goid()) {
+		abandoned[id] = true
+	}
 }
